@@ -192,8 +192,37 @@ def run(ck):
                 ok = rs_ not in g.reach([es], blocked={cond} if cond else (), keep=keep, include_start=False)
                 ck.ob("C17-O3", sitestr(cl, rem[0]), ok, "elements of other classes are kept" if ok else "clear(type) also removes elements of other classes", key="clear|removes-others")
         loops = find_loops(cl)
-        okl = len(loops) == 1 and any(is_call(x, "hasNext") for x in walk(loops[0].get("cond"))) and not cl.find(lambda n: n.get("k") in ("break", "return"))
-        ck.ob("C17-O3", sitestr(cl), okl, "every element is visited (hasNext loop without early exit)" if okl else "clear(type) may stop early", key="clear|early-exit")
+        noexit = not cl.find(lambda n: n.get("k") in ("break", "return"))
+        java_style = len(loops) == 1 and any(is_call(x, "hasNext") for x in walk(loops[0].get("cond")))
+        # `for (it = l.begin(); it != l.end(); ) { if (...) it = l.erase(it); else ++it; }`
+        erase_style = False
+        if len(loops) == 1 and not java_style:
+            lp = loops[0]
+            cnd = skip_copies(lp.get("cond")) if isinstance(lp.get("cond"), dict) else None
+            ends = [x for x in walk(cnd)] if cnd else []
+            to_end = isinstance(cnd, dict) and cnd.get("op") == "!=" and any(is_call(x, ("end", "cend", "constEnd")) for x in ends)
+            itd = None
+            for x in walk(lp.get("init") or {}):
+                if x.get("k") == "decl" and x.get("vars"):
+                    itd = x["vars"][0].get("decl")
+            if itd is None and isinstance(cnd, dict):
+                for x in walk(cnd):
+                    if x.get("k") == "ref" and x.get("dk") == "local":
+                        itd = x.get("decl")
+            erase_asg = [n for n in cl.calls() if n.get("op") == "=" and len(n.get("args", [])) == 2 and is_ref_to(n["args"][0], itd) and is_call(n["args"][1], ("erase",))]
+            erase_asg += [n for n in cl.find(lambda n: n.get("k") == "binop" and n.get("op") == "=" and is_ref_to(n.get("lhs"), itd) and is_call(n.get("rhs"), ("erase",)))]
+            steps = [n for n in cl.find(lambda n: (n.get("k") == "unop" and n.get("op") == "++" and is_ref_to(n.get("e"), itd)) or (n.get("k") == "call" and n.get("op") == "++" and n.get("args") and is_ref_to(n["args"][0], itd)))]
+            if to_end and itd and erase_asg and steps:
+                gs_ = g
+                cnds = gs_.site_of(lp["cond"])
+                adv = set(gs_.sites_of_nodes(erase_asg + steps))
+                # every iteration either erases (iterator = next element) or steps; never both, never neither
+                one = cnds not in gs_.reach([cnds], blocked=adv, keep=lambda e_: not (e_.src == cnds and e_.idx == 1), include_start=False)
+                erase_style = bool(one)
+        okl = (java_style or erase_style) and noexit
+        ck.ob("C17-O3", sitestr(cl), True if okl else (False if (java_style or erase_style) and not noexit else None),
+              "every element is visited (%s loop without early exit)" % ("hasNext" if java_style else "erase/advance") if okl else
+              "clear(type) may stop early" if not noexit else "clear(type): loop form not recognised", key="clear|early-exit")
     for m, K in CLEAR_CLASS.items():
         fn = F.fn(SP + "::" + m)
         ck.touch(fn)
@@ -212,6 +241,19 @@ def run(ck):
 def pred_param(F, fn, lam_node):
     """which QSet parameter of fn the predicate lambda consults: index or None; requires `set.contains(x->type())`"""
     lam = skip_copies(lam_node)
+    if lam.get("k") == "ref":
+        lam = skip_copies(deref_local(fn, lam))
+    helper_arg = None
+    if lam.get("k") == "call" and lam.get("fn") in F.fns and lam.get("args"):
+        # predicate factory: helper(set) { return [&set](const HandlerPtr &h) { return set.contains(h->type()); }; }
+        hf = F.fns[lam["fn"]]
+        hr = returns(hf)
+        if len(hr) == 1 and skip_copies(hr[0].get("e")).get("k") == "lambda" and len(hf.params) == 1 and len(lam["args"]) == 1:
+            helper_arg = (hf.params[0], skip_copies(lam["args"][0]))
+            lam = skip_copies(hr[0].get("e"))
+        elif lam.get("inl_value") is not None and skip_copies(fn.nodes.get(lam["inl_value"], {})).get("k") == "lambda" and len(hf.params) == 1:
+            helper_arg = (hf.params[0], skip_copies(lam["args"][0]))
+            lam = skip_copies(fn.nodes[lam["inl_value"]])
     if lam.get("k") != "lambda":
         return None
     lf = F.fns.get(lam["fn"])
@@ -229,6 +271,12 @@ def pred_param(F, fn, lam_node):
     if not (is_call(a, "QtLogger::Handler::type") and is_ref_to(unwrap_ptr(a.get("obj")), lf.params[0]["decl"])):
         return None
     o = skip_copies(e.get("obj"))
+    if helper_arg is not None:
+        hp, harg = helper_arg
+        if (o.get("k") == "ref" and (o.get("decl") or "").split("@inl")[0] == hp["decl"]) or (o.get("name") or "").split("::")[-1] == hp.get("name"):
+            o = harg   # the factory's parameter stands for the argument it was called with
+        else:
+            return None
     # captured by reference: the capture refers to the enclosing function's parameter
     for i, p in enumerate(fn.params):
         if o.get("k") == "ref" and o.get("decl") == p["decl"]:
